@@ -16,6 +16,8 @@ import (
 	"testing"
 	"time"
 
+	"github.com/google/go-tdx-guest/abi"
+	"github.com/google/go-tdx-guest/pcs"
 	"github.com/google/go-tdx-guest/verify"
 	"pgregory.net/rapid"
 	"verifharness/gen"
@@ -68,7 +70,13 @@ func c03Eval(t gen.TB, w *gen.World, k c03Kind, resp gen.Response, class, desc s
 	w.Resp[u] = resp
 	o := w.Options(gen.LvlColl, w.NewGetter(), nil)
 	gen.Eval()
-	v := gen.Call(func() error { return verify.RawTdxQuote(w.Raw, o) })
+	v, hung := gen.CallWatch(30*time.Second, func() error { return verify.RawTdxQuote(w.Raw, o) })
+	if hung {
+		rp := w.CaseFile(gen.LvlColl, nil, nil, nil, "c03")
+		rp["kind"], rp["which"] = "collateral", k.name
+		gen.Fail(t, gen.Violation{Key: "no-verdict:" + class, Oracle: "an altered response leads to rejection (a verifier that never returns has not rejected it)", Detail: desc + ": no verdict after 30 s", Replay: rp})
+		return
+	}
 	members, jsonOK := gen.SplitTopLevel(resp.Body)
 	_ = members
 	hv := resp.Header[k.hdr]
@@ -381,13 +389,88 @@ func TestC03(t *testing.T) {
 		}
 	})
 
+	// (A4) the level-reporting API on an options value that verified a quote earlier: whatever it reports, and whenever it
+	// is called (also after the kept documents have passed their nextUpdate, with the endpoint by then serving altered
+	// documents), comes from authenticated documents. The altered documents carry a marker date no authentic one has.
+	gen.Prop(t, "level-report-after-the-kept-documents-expired", gen.N(300, 20000), func(t *rapid.T) {
+		w, _ := gen.DrawWorld(t, gen.WorldCfg{MaxAuth: 16, Simple: true})
+		w.TcbInfo.NextUpdate = w.Times.TcbInfo.Add(time.Hour)
+		w.QeID.NextUpdate = w.Times.QeIdentity.Add(time.Hour)
+		w.Build()
+		o := w.Options(gen.LvlColl, w.NewGetter(), nil)
+		gen.Eval()
+		if v := gen.Call(func() error { return verify.RawTdxQuote(w.Raw, o) }); !v.Accepted() {
+			gen.HarnessError(t, "honest world rejected: %s", v)
+		}
+		const marker = "2037-07-07T07:07:07Z"
+		forged := *w
+		forged.TcbInfo.Levels = append([]gen.PlatformLevel{}, w.TcbInfo.Levels...)
+		forged.QeID.Levels = append([]gen.QeLevel{}, w.QeID.Levels...)
+		for i := range forged.TcbInfo.Levels {
+			forged.TcbInfo.Levels[i].Date, forged.TcbInfo.Levels[i].Status = marker, "UpToDate"
+		}
+		for i := range forged.QeID.Levels {
+			forged.QeID.Levels[i].Date, forged.QeID.Levels[i].Status = marker, "UpToDate"
+		}
+		forged.TcbInfo.NextUpdate, forged.QeID.NextUpdate = gen.Wide.NotAfter, gen.Wide.NotAfter
+		fk := gen.NewPKI(gen.PKISpec{Seed: "pki-foreign"})
+		how := rapid.SampledFrom([]string{"foreign-signer", "signature-zeroed", "genuine-header-foreign-key"}).Draw(t, "forgedHow")
+		g2 := w.NewGetter()
+		for _, k := range kinds {
+			var body []byte
+			hdr := g2.Resp[k.url(w)].Header
+			switch how {
+			case "foreign-signer":
+				body = gen.SignedBody(k.member, k.render(&forged), fk.TcbSig.Key)
+				hdr = map[string][]string{k.hdr: {gen.IssuerChainHeader(fk.TcbSig, fk.Root)}}
+			case "signature-zeroed":
+				body = gen.WrapBody(k.member, k.render(&forged), strings.Repeat("00", 64))
+			default:
+				body = gen.SignedBody(k.member, k.render(&forged), fk.TcbSig.Key)
+			}
+			g2.Resp[k.url(w)] = gen.Response{Header: hdr, Body: body}
+		}
+		which := rapid.SampledFrom([]string{"both-expired", "tcbinfo-expired", "qeidentity-expired", "none-expired"}).Draw(t, "expired")
+		ts := *o.Now
+		if which == "both-expired" || which == "tcbinfo-expired" {
+			ts.TcbInfo = ts.TcbInfo.Add(2 * time.Hour)
+		}
+		if which == "both-expired" || which == "qeidentity-expired" {
+			ts.QeIdentity = ts.QeIdentity.Add(2 * time.Hour)
+		}
+		o.Now = &ts
+		o.Getter = g2
+		msg, err := abi.QuoteToProto(w.Raw)
+		if err != nil {
+			gen.HarnessError(t, "own quote does not parse: %v", err)
+		}
+		gen.Eval()
+		var tl, ql pcs.TcbLevel
+		v := gen.Call(func() error {
+			var err error
+			tl, ql, err = verify.SupportedTcbLevelsFromCollateral(msg, o)
+			return err
+		})
+		gen.Class("level-report:" + which + ":" + v.Short())
+		gen.NonTrivial("level-report", how, which, w.Raw[:64])
+		gen.Sample("level-report", map[string]any{"forged": how, "expired": which, "outcome": v.Short()})
+		if v.Panicked() {
+			return // C10's business
+		}
+		if v.Accepted() && (tl.TcbDate == marker || ql.TcbDate == marker) {
+			gen.Fail(t, gen.Violation{Key: "level-report-from-unauthenticated-documents:" + how, Oracle: "the values reported come from members whose raw bytes verify under an Intel TCB-signing certificate chaining to the trusted roots",
+				Detail: fmt.Sprintf("after a successful verification, with %s, the endpoint serves %s documents; the level report returned their values (TCB level date %q, QE level date %q) with a nil error", which, how, tl.TcbDate, ql.TcbDate),
+				Replay: map[string]any{"kind": "c03-level-report", "forged": how, "expired": which}})
+		}
+	})
+
 	// (B..F) structured alterations.
 	alterations := []string{
 		"foreign-signer-header-foreign", "foreign-signer-header-genuine", "signed-by-pck-leaf", "signed-by-intermediate", "signed-by-root", "signer-wrong-name", "signer-self-signed-lookalike-root",
 		"signature-over-whole-body", "signature-over-reencoded", "reencoded-whitespace", "reencoded-key-order", "reencoded-number", "reencoded-hexcase", "reencoded-escape",
 		"dup-member-after", "dup-member-before", "dup-exact-after", "dup-exact-before", "dup-signature-after", "dup-signature-before", "extra-unknown-member", "signature-hex-case", "signature-key-case",
 		"wrong-id", "wrong-version", "empty-levels", "missing-member", "missing-signature", "signature-short", "signature-not-hex",
-		"header-missing", "header-empty", "header-two-values", "header-one-cert", "header-three-certs", "header-wrong-pem-type", "header-not-escaped", "header-swapped-order", "header-other-key-case",
+		"header-missing", "header-empty", "header-two-values", "header-one-cert", "header-three-certs", "header-wrong-pem-type", "header-foreign-pem-block", "header-not-escaped", "header-swapped-order", "header-other-key-case",
 		"signed-omits-field-unsigned-supplies-it", "signed-omits-field-unsigned-supplies-it", "signer-clones-issuer-and-serial-lookalike-root", "signer-clones-issuer-and-serial-genuine-root", "signer-clones-issuer-and-serial-bitflipped-genuine-cert",
 		"exact-key-unsigned-other-key-signed-after", "exact-key-unsigned-other-key-signed-before", "exact-key-unsigned-other-key-signed-after",
 		"foreign-signer-not-yet-valid", "foreign-signer-expired", "foreign-signer-not-yet-valid-header-genuine-root",
@@ -635,6 +718,13 @@ func TestC03(t *testing.T) {
 			resp.Header = map[string][]string{k.hdr: {gen.IssuerChainHeader(signer, w.PKI.Root, w.PKI.Int)}}
 		case "header-wrong-pem-type":
 			resp.Header = map[string][]string{k.hdr: {url.QueryEscape(strings.Replace(string(gen.ChainPEM(signer, w.PKI.Root)), "CERTIFICATE", "TRUSTED CERTIFICATE", 2))}}
+		case "header-foreign-pem-block":
+			// a well-formed PEM block that is not a certificate before, between or behind the two certificates
+			blk := string(pem.EncodeToMemory(&pem.Block{Type: rapid.SampledFrom([]string{"X509 CRL", "PUBLIC KEY", "CERTIFICATE REQUEST", "TRUSTED CERTIFICATE"}).Draw(t, "blockType"), Bytes: w.PKI.Int.DER}))
+			parts := []string{string(signer.PEM), string(w.PKI.Root.PEM)}
+			at := rapid.IntRange(0, 2).Draw(t, "blockAt")
+			parts = append(parts[:at], append([]string{blk}, parts[at:]...)...)
+			resp.Header = map[string][]string{k.hdr: {url.QueryEscape(strings.Join(parts, ""))}}
 		case "header-not-escaped":
 			resp.Header = map[string][]string{k.hdr: {string(gen.ChainPEM(signer, w.PKI.Root))}}
 		case "header-swapped-order":
